@@ -33,7 +33,11 @@ class _Clock:
     def now(self):
         return self.t
 
-    time = now
+    time = monotonic = perf_counter = now
+
+    def __getattr__(self, name):
+        from pysym.core import Unmodelled
+        raise Unmodelled('%s.%s is not modelled by the harness double' % (type(self).__name__, name))
 
     def sleep(self, d):
         self.slept.append(d)
